@@ -15,6 +15,9 @@ RULE = ('well-formed texts of the C02 generator x parsers built from subsets of 
         'name, braces around ENTERPRISE, empty CREATION-REQUIRES, typed INDEX entries, NetworkAddress) '
         'are planted in the *model* at a random applicable site, rendered, and must parse under every '
         'subset containing the option to the tree of the model (= tree of the corrected text); '
+        'every tenth case is a hand-made corner text (object names in OID form - zero, numbers first, '
+        'several sub-identifiers - wherever the grammar takes an ObjectName; zero valued ranges and '
+        'defaults) judged along the inclusion pairs only; '
         'unknown option names must raise the package error; non-trivial = a breakage or an inclusion '
         'pair was judged; distinct = hash(text, subsets)')
 ASSUMPTIONS = ['supportIndex needs supportSmiV1Keywords to build (not a property of the statement; such '
@@ -32,11 +35,11 @@ def plan(tier, seed):
         return {'n': 2800, 'budget_s': 45, 'min_evals': 6000,
                 'floors': {'parses': 15000, 'inclusion_pairs': 6000, 'breakages_planted': 1200,
                            'breakage_accepted_under_option': 1200, 'subsets_built': 100,
-                           'unknown_option_checks': 50}}
+                           'unknown_option_checks': 50, 'corner_texts_accepted': 150}}
     return {'n': 50000, 'budget_s': 650, 'min_evals': 200000,
             'floors': {'parses': 600000, 'inclusion_pairs': 300000, 'breakages_planted': 40000,
                        'breakage_accepted_under_option': 40000, 'subsets_built': 384 * 4,
-                       'unknown_option_checks': 1500}}
+                       'unknown_option_checks': 1500, 'corner_texts_accepted': 3000}}
 
 
 def parser_for(subset, res=None):
